@@ -33,8 +33,13 @@ class Clock:
         return cls.now
 
 
+class HugeAllocation(Exception):
+    pass
+
+
 class Rand:
     """Counter based deterministic stream replacing secrets.token_bytes."""
+    CAP = 1 << 22
     seed = b'verif'
     counter = 0
     log = []
@@ -54,8 +59,12 @@ class Rand:
         if n < 0:
             raise ValueError('negative argument not allowed')
         cls.counter += 1
-        out = hashlib.shake_256(cls.seed + cls.counter.to_bytes(8, 'big')).digest(n)
         cls.log.append(n)
+        if n > cls.CAP:
+            # the harness refuses to really allocate attacker-sized buffers; the request itself is
+            # what C07 judges (Rand.log keeps the size)
+            raise HugeAllocation(n)
+        out = hashlib.shake_256(cls.seed + cls.counter.to_bytes(8, 'big')).digest(n)
         return out
 
 
